@@ -40,13 +40,13 @@ MANIFEST = dict(
     design_ref="DESIGN.md section 3 C09")
 ASSUMPTIONS = [
     "retaining more than the strict grammar's valid prefix (leniency) is not a violation",
-    "number literals beyond the range of a double (1e999) are not in the alphabet",
+    "a number literal beyond the range of a double (1e999) is an error at that literal (reference lexer: |v| >= 2^1024-2^970)",
     "arcs of the retained prefix are compared by endpoints only here (their geometry is C01/C05's business)",
     "strings using a segment-completing close in a position whose meaning the specs leave open are exempt from the "
     "prefix comparison",
 ]
 
-MENU_Q = ["5", "-", ".", "e", "1e", "2", "#", "é", "\x00", ",", "z", "L", "a", "h", "1.", "--1"]
+MENU_Q = ["5", "-", ".", "e", "1e", "2", "#", "é", "\x00", ",", "z", "L", "a", "h", "1.", "--1", "1e999"]
 MENU_T = MENU_Q + [" ", "M", "+", "Z1", "1e5", "T", "S", "v", "Q", " ", "0x1", "1e999", "nan", "inf"]
 
 
